@@ -3,6 +3,7 @@ package main
 import (
 	"bytes"
 	"encoding/gob"
+	"encoding/json"
 	"fmt"
 	"os"
 	"strings"
@@ -14,6 +15,7 @@ func init() {
 	// what a user of Map.Gob must do for nested values (cf. gob_test.go)
 	gob.Register(map[string]interface{}{})
 	gob.Register([]interface{}{})
+	gob.Register(json.Number(""))
 }
 
 var indentStrs = []string{"", " ", "  ", "\t", "    "}
@@ -517,6 +519,12 @@ func runC19(c *Ctx) *Violation {
 // runC19Gob: F5 - Gob/NewMapGob and Copy round trips, gob truncation.
 func runC19Gob(c *Ctx) *Violation {
 	t := c.T
+	if t.Draw(3) == 2 {
+		// numbers are decoded as json.Number: Copy and gob must keep their type and exact text
+		mxj.JsonUseNumber = true
+		c.Put("JsonUseNumber", true)
+		c.C["probe.f5_json_number_cases"]++
+	}
 	single := t.Draw(2) == 1 // single-key objects: the gob bytes are the same on every run
 	doc := genJSONDoc(t, JSONOpts{WS: false, SingleKey: single, MaxDepth: 4})
 	var m mxj.Map
